@@ -5,6 +5,8 @@ from statsmodel import StatsModel
 from weight import WeightModel
 from storemodel import StoreModel
 
+from sym import ipaths
+
 LEVEL = "other"
 EXPLANATION = ("Pairing rules on MIR paths between each counter bump and the event it counts: one of hit/miss per "
                "lookup with hit iff the returned option is Some; KeysAdded per store insert, KeysDeleted per "
@@ -14,6 +16,18 @@ EXPLANATION = ("Pairing rules on MIR paths between each counter bump and the eve
                "an arithmetic identity and is not decided.")
 ASSUMPTIONS = ["AtomicU64 fetch_add/load are atomic; quiescence means no operation in flight",
                "overwriting inserts are excluded by C05 R05.3 (otherwise KeysAdded over-counts)"]
+
+
+def outer_fn(F, g):
+    """the named function a closure is written in"""
+    for _ in range(6):
+        if g.kind != "Closure":
+            return g
+        p = F.fn(g.rec.get("parent"))
+        if p is None:
+            return g
+        g = p
+    return g
 
 
 def strip_casts(e):
@@ -31,37 +45,41 @@ def run(ctx):
     hit, miss = SM.bumps_of("CacheHits"), SM.bumps_of("CacheMisses")
 
     # ---- R16.1 --------------------------------------------------------------------------------
-    lookups = [f for n, f in F.fns.items() if any(t.get("rpath") in hit for b, t in f.calls()) or any(t.get("rpath") in miss for b, t in f.calls())]
+    # lookup functions = the innermost Option-returning functions on whose symbolic paths (helpers and closures inlined,
+    # the counter bumps opaque) a hit or a miss is counted
+    hm_stop = lambda n: n in hit or n in miss
+    cand = {}
+    for n, f in F.fns.items():
+        if f.kind == "Closure" or not f.rec.get("ret", "").startswith("std::option::Option<"):
+            continue
+        direct = any(t.get("rpath") in hit or t.get("rpath") in miss for b, t in f.calls())
+        via = [t.get("rpath") for b, t in f.calls() if t["res"] == "item" and t.get("rpath") in F.fns]
+        if not direct and not via:
+            continue
+        ps = ipaths(F, f, stop=hm_stop, depth=3)
+        if any(p.calls(hit) or p.calls(miss) for p in ps):
+            cand[n] = (f, ps)
+    inner = {n for n, (f, ps) in cand.items() if not any(t.get("rpath") in cand and t.get("rpath") != n for b, t in f.calls())}
+    lookups = [cand[n][0] for n in sorted(inner)]
     ctx.floor("R16.1", "lookup functions that count hits/misses", len(lookups), 2)
     for f in lookups:
         ctx.touch(f)
-        paths = enum_paths(f)
+        paths = cand[f.name][1]
         ctx.analysed["paths"] += len(paths)
         bad = []
         for p in paths:
-            atoms = path_atoms(f, p)
-            calls = path_calls(f, p)
-            h = [1 for b, t in calls if t.get("rpath") in hit]
-            m = [1 for b, t in calls if t.get("rpath") in miss]
+            h, m = p.calls(hit), p.calls(miss)
             if len(h) + len(m) != 1:
                 bad.append(("%d hit + %d miss bumps on one lookup" % (len(h), len(m)), p))
                 continue
-            r = path_return(f, p, atoms)
-            some = None
-            for a in atoms:
-                if a[0] == "bool" and a[1][0] == "call" and "Option::<T>::is_some" in a[1][1] and same_value(a[1][2][0], r):
-                    some = a[2]
-                if a[0] == "bool" and a[1][0] == "call" and "Option::<T>::is_none" in a[1][1] and same_value(a[1][2][0], r):
-                    some = not a[2]
-                if a[0] == "enum" and same_value(a[1], r):
-                    some = a[2] == ("Some",)
-            if some is None:
+            v = p.ret_variant()
+            if v not in (("Some",), ("None",)):
                 bad.append(("hit/miss not decided by the presence of the returned value", p))
-            elif some != bool(h):
+            elif (v == ("Some",)) != bool(h):
                 bad.append(("hit counted on None / miss counted on Some", p))
         ctx.check(not bad and paths, "R16.1", "%s|one-of-hit-miss" % f.name,
-                  "each lookup counts exactly one of hit/miss, hit iff the value it returns is Some (%d paths)" % len(paths), f.where(),
-                  "; ".join("%s via %s" % x for x in bad[:3]))
+                  "each lookup counts exactly one of hit/miss, hit iff the value it returns is Some (%d symbolic paths, helpers inlined)" % len(paths), f.where(),
+                  "; ".join("%s %s" % (w, q.show()) for w, q in bad[:3]))
     # lookups of the store happen only in counted functions or in non-read helpers (presence/update/mark)
     counted = {f.name for f in lookups}
     for f, bb, t in S.lookup_sites:
@@ -91,24 +109,23 @@ def run(ctx):
         f = F.fn(fname)
         ctx.touch(f)
         bad = []
-        for p in enum_paths(f):
-            atoms = path_atoms(f, p)
-            calls = path_calls(f, p)
-            rem = [(b, t) for b, t in calls if dashmap_call(t) == ("remove", "S")]
-            nd = len([1 for b, t in calls if t.get("rpath") in delk])
+        for p in ipaths(F, f, stop=lambda n: n in delk, depth=3):
+            rem = [e for e in p.events if dashmap_call(e.t) == ("remove", "S")]
+            nd = len(p.calls(delk))
             if len(rem) != 1:
+                if nd:
+                    bad.append(("KeysDeleted bumped on a path with %d removals" % len(rem), p))
                 continue
-            rr = f.origin_call(rem[0][0], rem[0][1])
-            some = [a for a in atoms if a[0] == "enum" and strip_site(a[1]) == strip_site(rr)]
-            if some and some[0][2] == ("Some",):
+            v = p.variant_of(rem[0].res)
+            if v == ("Some",):
                 if nd != 1:
                     bad.append(("removed an entry, KeysDeleted bumped %d times" % nd, p))
             elif nd != 0:
                 bad.append(("KeysDeleted bumped although nothing was removed", p))
-        ctx.check(not bad, "R16.2", "%s|keys-deleted-per-removal" % fname, "KeysDeleted is bumped exactly once per successful removal", f.where(), str(bad[:2]))
+        ctx.check(not bad, "R16.2", "%s|keys-deleted-per-removal" % fname, "KeysDeleted is bumped exactly once per successful removal", f.where(), str([(w, q.show()) for w, q in bad[:2]]))
     # nobody else bumps them
     for variant, fns, homes in (("KeysAdded", addk, S.insert_fns), ("KeysDeleted", delk, S.remove_fns)):
-        others = sorted({g.name for n, g in F.fns.items() for b, t in g.calls() if t.get("rpath") in fns} - set(homes))
+        others = sorted({outer_fn(F, g).name for n, g in F.fns.items() for b, t in g.calls() if t.get("rpath") in fns} - set(homes))
         ctx.check(not others, "R16.2", "%s|only-at-event" % variant, "%s is bumped only where the event happens" % variant, detail=str(others))
 
     # ---- R16.3 ----------------------------------------------------------------------------------
